@@ -1,24 +1,24 @@
-SPECIFICATION TraceSpec
+SPECIFICATION SSpec
 CONSTANTS
   Vars = {"a", "b", "c"}
-  Fams = {}
+  Fams = {"pb"}
   ClauseMax = 0
   AmoSeq = 0
   AmoMax = 0
   AmoPols = {0, 1}
   HeuleKs = {}
-  PbShape = "raw"
-  PbTerms = 0
+  PbShape = "ordered"
+  PbTerms = 3
   PbPols = {0, 1}
   PbNeg = 0
-  PbPos = 0
-  PbBound = 0
+  PbPos = 3
+  PbBound = 8
   PbOps = {">="}
-  MaxMgrs = 0
-  MaxPosts = 0
+  MaxMgrs = 1
+  MaxPosts = 1
   EMIT = FALSE
-  PROBE = FALSE
-  ACKinds = {}
+  PROBE = TRUE
+  ACKinds = {"pb_plain"}
   RDecs = {TRUE, FALSE}
   RTerms = 0
   RCoef = 0
@@ -34,3 +34,5 @@ CONSTANTS
   CMax2 = 0
   KMax2 = 0
 CHECK_DEADLOCK FALSE
+INVARIANT ProbeSound
+INVARIANT ProbeDetectsInconsistency
